@@ -1,17 +1,57 @@
 (* Executable judge for C14 correspondence cases. *)
+From Coq Require Export Uint63.   (* case files write %uint63 literals *)
 From PV Require Import Base.Bytes Gen.Tables Run.Verdict.
-From PV Require Export Models.Strip.   (* case files name hnode's constructors *)
+From PV Require Export Models.Strip.   (* case files name hnode's and ftok's constructors *)
+
+(* ---- long byte strings in case files ----
+   A string literal costs about 100 us per byte to elaborate; results of tens
+   of kilobytes are written as a list of primitive 63-bit integers instead,
+   7 bytes per integer, lowest byte first, below a sentinel bit (so that a
+   word may carry fewer than 7 bytes and zero bytes survive).  Decoding only;
+   nothing is proved about primitive integers and no theorem mentions them. *)
+Definition bit63 (v k : Uint63.int) : bool :=
+  negb (Uint63.is_zero (PrimInt63.land (PrimInt63.lsr v k) 1%uint63)).
+
+Definition byte_of_word (v : Uint63.int) : ascii :=
+  Ascii (bit63 v 0%uint63) (bit63 v 1%uint63) (bit63 v 2%uint63) (bit63 v 3%uint63)
+        (bit63 v 4%uint63) (bit63 v 5%uint63) (bit63 v 6%uint63) (bit63 v 7%uint63).
+
+Fixpoint word_go (fuel : nat) (v : Uint63.int) (acc : bytes) : bytes :=
+  match fuel with
+  | O => acc
+  | S f => if PrimInt63.leb v 1%uint63 then acc
+           else byte_of_word v :: word_go f (PrimInt63.lsr v 8%uint63) acc
+  end.
+
+Fixpoint unpack (ws : list Uint63.int) : bytes :=
+  match ws with
+  | [] => []
+  | w :: r => word_go 7 w (unpack r)
+  end.
+
+(* stripTags<&> NUL double-quote apostrophe: 15 bytes, three words, the last one short *)
+Example unpack_example :
+  unpack [99453508561040499%uint63; 81628010175558503%uint63; 295%uint63] =
+  B "stripTags<&>" ++ ["000"%char; """"%char; "'"%char].
+Proof. vm_compute. reflexivity. Qed.
 
 Record case14 := {
-  slices   : list (list (option bytes)); (* the config.Slice arguments given to stripTags;
-                                            None = an item that is not a string *)
-  forest   : list hnode;                 (* what html.ParseFragment returned for the input *)
-  go_out   : bytes;                      (* what stripTags returned *)
-  tok_ok   : bool;                       (* verdict of the Go-side tokenizer oracle on go_out *)
-  modelled : bool;                       (* false: forest shape or definition outside the model *)
+  slices    : list (list (option bytes)); (* the config.Slice arguments given to stripTags;
+                                             None = an item that is not a string *)
+  toks      : list ftok;                  (* what html.ParseFragment returned for the input, in
+                                             document order (Models.Strip.flatten_forest);
+                                             [] when cmp_model = false *)
+  text      : bytes;                      (* the character data of that forest in document order *)
+  go_out    : bytes;                      (* what stripTags returned *)
+  tok_ok    : bool;                       (* verdict of the Go-side tokenizer oracle on go_out *)
+  modelled  : bool;                       (* false: forest shape or definition outside the model *)
+  cmp_model : bool;                       (* false: the forest is too large to be handed over as
+                                             a term; only its text is *)
 }.
 
 Definition allow14 (c : case14) : allowlist := allow_of_slices (slices c).
+
+Definition forest (c : case14) : list hnode := build_forest (toks c).
 
 Definition has_lt (s : bytes) : bool := existsb (Ascii.eqb "<"%char) s.
 
@@ -25,8 +65,17 @@ Definition oracle14 (c : case14) : bool :=
   | _ :: _ => true
   end.
 
+(* what is left of the model when the forest is not handed over: the text
+   between the tags of the result is the escaped character data of the forest
+   (C14_text_escaped; needs allow_ok) *)
+Definition text_agrees (c : case14) : bool :=
+  beqb (drop_tags false (go_out c)) (esc6 (text c)).
+
 Definition judge (c : case14) : nat :=
   if modelled c then
-    verdict (dom_C14 (allow14 c)) (oracle14 c)
-            (beqb (go_out c) (striptags (slices c) (forest c)))
+    if cmp_model c then
+      verdict (dom_C14 (allow14 c)) (oracle14 c)
+              (beqb (go_out c) (striptags_fast (slices c) (forest c)))
+    else if dom_C14 (allow14 c) then verdict true (oracle14 c) (text_agrees c)
+    else v_unmodelled
   else v_unmodelled.
